@@ -193,8 +193,11 @@ func init() {
 		}
 		return false
 	}
+	// KF-25 is a class of scripts, decided structurally by the model (`Expr.vlo`): a value-less expression
+	// (assignment, compound assignment, if, while, foreach, switch, function, local, postfix) in a position
+	// whose value is consumed; only the underflow it causes is covered
 	predicates["kf25Script"] = func(v OracleViolation) bool {
-		return inList(kf25Scripts(), v.Script) && strings.Contains(v.Detail, "underflow")
+		return strings.Contains(v.Detail, "underflow") && strings.Contains(v.Detail, "value-less expression where a value is consumed")
 	}
 	predicates["kf26Script"] = func(v OracleViolation) bool { return inList(kf26Scripts(), v.Script) }
 }
